@@ -11,6 +11,14 @@ CHECKS = {
    technique="bounded-exhaustive enumeration of feature-subset lattice, escape-channel product and re-saved corpus; oracle = independent Python OPC/SpreadsheetML validator + decoder",
    text="Every package of the feature lattice (2^11 subsets thorough, size<=2 and co-size<=1 quick) x writers x macro, every escape channel x special string, and every re-saved corpus file is validated and decoded by an independent stdlib-only Python reader and compared with the in-memory model.",
    note="Trusted: pyref/xlsx_ref.py (zipfile + expat) as the independent reader; it implements the subset of ECMA-376 named in DESIGN 2.5."),
+ "C05": dict(level="exploration", engine="E1+P", design="3 C05",
+   technique="bounded-exhaustive enumeration of a style alphabet (all 1- and 2-attribute variations + collision family), all ordered pairs and all-at-once workbooks in both orders; oracle = effective style projection equality, table sizes via independent decoder",
+   text="Every ordered pair of single-attribute style variations in a two-cell workbook, whole style sets (sigma1, sigma2, separator-collision family) in one workbook in forward and reverse order (covers every earlier/later interning pair), and every 4-state assignment to columns 1..5 / rows 1..3 are saved and reloaded; the field-by-field effective projection must be unchanged and the style tables must not grow between generations 2 and 3.",
+   note="Trusted: public style getters; 'never set' == default component as shown by two control cells of the same reloaded workbook; Python decoder for table sizes."),
+ "C06": dict(level="exploration", engine="E1", design="3 C06",
+   technique="bounded-exhaustive enumeration of annotation-kind subsets x counts x sheet layouts x sheet operations and of text channels x special strings; oracle = pre-save annotation dump equals post-reload dump keyed by cell",
+   text="Each of 19 annotation kinds alone, every pair of kinds at every count combination {1,2,12}, all kinds at once, on 1- and 3-sheet workbooks, with sheet removal/rename/active-tab operations before save, plus every annotation text channel x 12 special strings; the annotation dump keyed by cell/range must be identical after reload.",
+   note="Trusted: public getters. Defined names are compared by scope (global / sheet), not by the object that happens to hold them."),
  "C17": dict(level="exploration", engine="E1", design="3 C17",
    technique="bounded-exhaustive enumeration (complete finite domain) with independent reference codec",
    text="Complete enumeration of the finite codec domains (all columns, all 1-3 letter names, every row x boundary columns x lock patterns, all range shapes over boundary corners, all legal sheet names of <=3 atoms) against an independent base-26/quoting reference; the domain is finite, so exhaustion settles the property inside the stated sheet-name bound.",
